@@ -7,6 +7,7 @@ import A2Verif.Lemmas.FsProdosLockPath
 import A2Verif.Lemmas.FsProdosRetype
 import A2Verif.Lemmas.FsProdosRun
 import A2Verif.Lemmas.FsProdosHist
+import A2Verif.Lemmas.FsProdosSubPut5
 import A2Verif.Props.C01
 import A2Verif.Props.C02
 import A2Verif.Props.C03
@@ -28,7 +29,9 @@ directory the refinement of `put` (seedling, sapling, tree, sparse), `mkdir`, `d
 into a first-level sub-directory the refinement of `delete`, `lock`, `unlock`, `retype` (`prodos_sub_delete_refines`,
 `prodos_sub_lock_refines`, `prodos_sub_unlock_refines`, `prodos_sub_retype_refines`); `prodos_step_refines`,
 `prodos_history_refines` over both kinds of path; and the C01–C05 / C19 corollaries for the concrete model at the end of the
-file.  **Not proved**: `put`, `rename`, `mkdir` on paths into sub-directories, directory growth, `format` for every size.
+file.  Proved as a lemma, not registered (`Lemmas/FsProdosSubPut5.lean`, `sub_put_ok`): the success case of `put` of `DIR/NAME`
+into a sub-directory with an empty slot (`SInv` afterwards, abstract `put` of `DIR/NAME`, exact free accounting).
+**Not proved**: the refusals of `put` and `rename`, `mkdir` on paths into sub-directories, directory growth, `format` for every size.
 Older results, kept:
 
 * **refinement of `lock`, `unlock` and `retype` for files of the volume directory** (`prodos_lock_refines`,
